@@ -1,4 +1,4 @@
-\* thorough: 2 nodes, 2 entries, 1 restart, 1 snapshot sync, separate in-channel, asynchronous HWM updates
+\* thorough: 2 nodes, 2 entries, 1 restart, 1 snapshot sync, separate in-channel, asynchronous HWM updates, <=2 leadership signals, 1 outage
 SPECIFICATION Spec
 CONSTANTS
   Node = {n1, n2}
@@ -7,11 +7,12 @@ CONSTANTS
   BatchSz = 2
   InCap = 2
   AsyncHWM = TRUE
-  MaxFlips = 99
+  SigCap = 2
+  MaxFlips = 2
   MaxLeaders = 1
   MaxRestarts = 1
   MaxSnaps = 1
-  MaxDowns = 99
+  MaxDowns = 1
   OneGroupPerEntry = TRUE
   LabelEveryGroup = TRUE
   KeyByHighest = TRUE
@@ -20,7 +21,8 @@ CONSTANTS
   HWMAfterSendOK = TRUE
   PruneToHWMOnly = TRUE
   RewindCursor = TRUE
+  ParkedKeptUntilSent = TRUE
   RestartHWMBelowLowest = TRUE
   DropReapplied = TRUE
 SYMMETRY Sym
-INVARIANTS TypeOK Labelled NoSkip TenureOrder TakenStored KeysBounded
+INVARIANTS TypeOK Labelled NoSkip TenureOrder TakenStored KeysBounded LoopShape
